@@ -8,8 +8,8 @@ from concurrent.futures import ThreadPoolExecutor
 
 import lib
 
-FILES = ["pk/__init__.py", "pk/a.py", "pk/b.py", "sub/__init__.py", "sub/c.py", "px/d.py", "px/e.py"]      # keys used by the tracers' filename filters
-MODULE_OF = {"pk/__init__.py": "pk", "pk/a.py": "pk.a", "pk/b.py": "pk.b", "sub/__init__.py": "pk.sub", "sub/c.py": "pk.sub.c", "px/d.py": "px.d", "px/e.py": "px.e"}
+FILES = ["pk/__init__.py", "pk/a.py", "pk/b.py", "sub/__init__.py", "sub/c.py", "px/d.py", "px/e.py", "px/g.py"]      # keys used by the tracers' filename filters
+MODULE_OF = {"pk/__init__.py": "pk", "pk/a.py": "pk.a", "pk/b.py": "pk.b", "sub/__init__.py": "pk.sub", "sub/c.py": "pk.sub.c", "px/d.py": "px.d", "px/e.py": "px.e", "px/g.py": "px.g"}
 BASENAME = {k: k.split("/")[1] for k in FILES}
 
 
@@ -31,6 +31,8 @@ def gen_layout(rng):
         "px/__init__.py": "",
         "px/d.py": "from pk import b\nD = b.fb(%d)\ndef fd():\n    return [D + j for j in range(2)]\nDD = fd()\n" % (k + 1),
         "px/e.py": "E = %d\ndef fe(n=2):\n    s = 0\n    for j in range(n):\n        s += j * E\n    return s\nEE = fe()\n" % k,
+        # only ever loaded through a spec obtained inside the context and executed later (C12's deferred loads)
+        "px/g.py": "G = %d\ndef fg():\n    return [G + j for j in range(2)]\nGG = fg()\n" % (k + 2),
     }
     return files
 
